@@ -94,6 +94,12 @@ def fixed_strings():
                 for body in (['>>> x = ('], ['>>> def f() return 1'], ['>>> print(1)', '1', '>>> y = ['], [">>> s = '''abc"], ['>>> print(1)', '1'],
                              ['>>> if True:', '>>> pass']):
                     out.append(intro + '\n'.join(pad + (ws + l if l.startswith('>>>') else l) for l in body) + '\n')
+    # a broken statement on a SHORT prompt line directly below the want of a deeply indented example (no empty line between them)
+    for depth in (5, 6, 7, 8, 12, 16):
+        for broken in ('>>> (', '>>> x=(', '>>> [1,', ">>> '''", '>>> f(]'):
+            for base in ('', '  '):
+                out.append('Intro.\n\n' + base + ' ' * depth + '>>> print(1)\n' + base + ' ' * depth + '1\n' + base + broken + '\n')
+                out.append(base + ' ' * depth + '>>> print(1)\n' + base + ' ' * depth + '1\n' + base + broken + '\n' + base + 'text after it\n')
     for pad in ('', '    '):
         for pre in ([], ['>>> a = 1'], ['>>> print(7)', '7']):
             for stmt, want in ((['>>> x = (1,', '>>>      2,', '...      3)'], ['(1, 2, 3)']), (['>>> x = [1,', '>>>      2,', '...      3]', '>>> x'], ['[1, 2, 3]']),
